@@ -30,7 +30,7 @@ TAP = {'events': []}
 
 
 def gates(tier):
-    return {'grader_calls': 5000, 'expected_correct': 1200, 'expected_incorrect': 1500,
+    return {'numbered_only_cases': 300, 'grader_calls': 5000, 'expected_correct': 1200, 'expected_incorrect': 1500,
             'partial_failure_patterns': 600, 'boundary_exact_cases': 200, 'tap_events': 15000,
             'tap_percent_events': 3000, 'array_cases': 800, 'inf_cases': 40, 'rewrite_cases': 300,
             'relative_operand_discriminating': 40, 'norm_discriminating': 24}
@@ -271,6 +271,13 @@ def run_branches(ctx):
         es = [fe[ans](x, y) for x, y in zip(xs, ys)]
         ss = [fe[student](x, y) for x, y in zip(xs, ys)]
         tolerance = rng.choice([0, 1e-9, 0.01, '0.01%', '5%'])
+        if i % 5 == 0 and 'y' not in ans:
+            # the only sampled quantity is an instance of a numbered variable (no plain variables at all)
+            ctx.count('numbered_only_cases')
+            run_case(ctx, rng.choice(['FormulaGrader', 'MatrixGrader']), ans.replace('x', 'a_{1}'), student.replace('x', 'a_{1}'), xs, ys, es, ss,
+                     tolerance, failable, rng.choice([1, 0.5]), {'family': 'branch', 'negative_samples': k, 'variables': 'numbered only'},
+                     extra_cfg={'variables': [], 'numbered_vars': ['a'], 'sample_from': {'a': lib.Scripted(values=list(xs))}})
+            continue
         run_case(ctx, rng.choice(['FormulaGrader', 'MatrixGrader']), ans, student, xs, ys, es, ss, tolerance, failable,
                  rng.choice([1, 0.5]), {'family': 'branch', 'negative_samples': k})
 
